@@ -1,6 +1,7 @@
 /- line-protocol driver over the models (imports nothing outside Lean core) -/
 import Gpv.Drv.Acc
 import Gpv.Drv.P2
+import Gpv.Drv.Pipe
 open Gpv Gpv.Drv
 
 structure DSt where
@@ -15,6 +16,7 @@ def dispatch (st : DSt) (line : String) : DSt × List String :=
       let (a, out) := accStep st.acc ws
       ({ st with acc := a }, out)
     else if w.startsWith "p2f." || w.startsWith "p2q." then (st, p2Dispatch ws)
+    else if w.startsWith "pipe." then (st, pipeDispatch ws)
     else if w = "#" then (st, [])
     else (st, ["bad-op"])
 
